@@ -42,6 +42,7 @@ type vfsState struct {
 	cwd     string
 	ops     []string
 	faults  int  // remaining injected faults
+	env     map[string]string // environment variables set by the program
 	limited bool // a file size limit (RLIMIT_FSIZE: "disk full") is in force
 	limit   int
 	crashOn bool // crash points enabled
@@ -201,6 +202,11 @@ func namedType(fr *frame, pkg, name string) types.Type {
 		panic(inconclusive{"package " + pkg + " is not part of the program"})
 	}
 	return p.Type(name).Type()
+}
+
+// pathErrorLike: an *os.SyscallError-shaped failure without a path (only its being non-nil matters)
+func pathErrorLike(fr *frame, op string, errno uintptr) value {
+	return pathError(fr, op, "", errno)
 }
 
 func pathError(fr *frame, op, path string, errno uintptr) value {
@@ -369,7 +375,37 @@ func init() {
 		"os.Chmod":     func(fr *frame, a []value) value { return iface{} },
 		"os.Getpid":    func(fr *frame, a []value) value { return 4242 },
 		"os.Hostname":  func(fr *frame, a []value) value { return tuple{"host", iface{}} },
-		"os.LookupEnv": func(fr *frame, a []value) value { return tuple{"", false} },
+		"os.LookupEnv": func(fr *frame, a []value) value {
+			v, ok := vfs.env[goStr(a[0])]
+			return tuple{v, ok}
+		},
+		"os.Setenv": func(fr *frame, a []value) value {
+			k := goStr(a[0])
+			if k == "" || strings.ContainsAny(k, "=\x00") || strings.Contains(goStr(a[1]), "\x00") {
+				return pathErrorLike(fr, "setenv", eINVAL)
+			}
+			if vfs.env == nil {
+				vfs.env = map[string]string{}
+			}
+			vfs.env[k] = goStr(a[1])
+			return iface{}
+		},
+		"os.Unsetenv": func(fr *frame, a []value) value {
+			delete(vfs.env, goStr(a[0]))
+			return iface{}
+		},
+		"os.Chdir": func(fr *frame, a []value) value {
+			p := vfs.abs(goStr(a[0]))
+			n, ok := vfs.files[p]
+			if !ok {
+				return pathError(fr, "chdir", goStr(a[0]), eNOENT)
+			}
+			if !n.isDir {
+				return pathError(fr, "chdir", goStr(a[0]), eNOTDIR)
+			}
+			vfs.cwd = p
+			return iface{}
+		},
 		"os.UserHomeDir": func(fr *frame, a []value) value {
 			return tuple{"/home/user", iface{}}
 		},
